@@ -457,6 +457,31 @@ def hier_split(spec, n_ids, vec, cov=None):
 # --------------------------------------------------------------------------
 # builders for chi population models
 # --------------------------------------------------------------------------
+_LAST_ONLY = [None]
+
+
+def n_hetero_leaves(spec):
+    k = spec['kind']
+    if k == 'hetero':
+        return 1
+    if k in ('cov', 'red'):
+        return n_hetero_leaves(spec['base'])
+    if k == 'comp':
+        return sum(n_hetero_leaves(p) for p in spec['parts'])
+    return 0
+
+
+def build_pop_last_explicit(spec, dim_names, n_ids):
+    """build_pop, but of several heterogeneous parts of a (flat) composition only the last one is constructed with
+    n_ids (HeterogeneousModel(n_ids=k)); the others keep their default of one individual until the composed model
+    propagates the number."""
+    _LAST_ONLY[0] = n_hetero_leaves(spec)
+    try:
+        return build_pop(spec, dim_names, n_ids)
+    finally:
+        _LAST_ONLY[0] = None
+
+
 def build_pop(spec, dim_names=None, n_ids=None):
     import chi
     k = spec['kind']
@@ -469,6 +494,12 @@ def build_pop(spec, dim_names=None, n_ids=None):
     if k == 'pooled':
         return chi.PooledModel(n_dim=spec['n_dim'], dim_names=dim_names)
     if k == 'hetero':
+        if _LAST_ONLY[0] is not None:
+            # (only the LAST heterogeneous part is constructed with the number of individuals; the composed model around
+            # them passes it on to the others)
+            _LAST_ONLY[0] -= 1
+            if _LAST_ONLY[0] > 0:
+                return chi.HeterogeneousModel(n_dim=spec['n_dim'], dim_names=dim_names)
         if n_ids is None:
             return chi.HeterogeneousModel(n_dim=spec['n_dim'], dim_names=dim_names)
         return chi.HeterogeneousModel(n_dim=spec['n_dim'], dim_names=dim_names, n_ids=n_ids)
